@@ -129,6 +129,65 @@ E = [
  ("C20-b", "C20", "loadHook returns the --config error only when the process wrote to stderr",
   "fault: a --config run that exits non-zero silently after printing a valid configuration",
   "C20 quick", ["C20/D5/bad-config-accepted"], "caught as built (single --config faults enumerated per tree)"),
+ # ---- third round (asked to differ in kind from the first two)
+ ("C01-c", "C01", "namespace-add callback stores the new informers in VaryingInformers after starting them instead of before reading eventsEnabled",
+  "interleaving: a labelSelector binding, a matching namespace appearing while the binding is locked, the unlock landing while that namespace's informers start",
+  "C01 quick", ["C01/O3/missing-object", "C01/O4/lost-event"], "caught as built (monitor workload)"),
+ ("C02-c", "C02", "the shared informer factory's context is derived from the first informer's context instead of Background",
+  "history: two bindings sharing a factory index (kind/namespace/selectors), the namespace stops matching the first one (label removed, namespace deleted)",
+  "NOT reported: C02 quick exits 2 (watchdog)", [],
+  "simulator limit: with the change the stopping shared informer holds client-go's real listenersLock while it waits for listener goroutines, one of which waits for the scheduler's baton that is held by a task blocked on that real lock; the run hangs and the check ends with an infrastructure error, neither a violation nor a pass. The namespace-removal scenarios written for it (`nsdel=1`) found a genuine defect of the unchanged tree instead (known finding C02/S3/namespace-two-list-gap)"),
+ ("C03-c", "C03", "TaskQueue.Filter deletes in place by moving the last task into the freed slot (order lost)",
+  "history: a shared queue with a backlog in which the head task is followed by a task of the same hook and at least two more",
+  "C03 quick", ["C03/Q3/order"], "caught as built"),
+ ("C04-c", "C04", "handleRunHook: the error of ExecuteOperations goes into a shadowed variable: a patch that cannot be applied counts as success",
+  "fault: exit 0, a valid patch, and the API server rejecting the write (allowFailure=false)",
+  "C04 quick", ["C04/F1/retry-differs", "C04/F3/not-retried", "C04/F5/context-discarded"],
+  "missed at first: C04 scenarios failed hooks by exit code only; some executions now write a patch and the API server model rejects the write of half of them (per-object write fault)"),
+ ("C05-c", "C05", "the worker prepends HeadTasks with append(taskRes.HeadTasks, q.items...) (aliases the handler's backing array)",
+  "input: a handler whose result slices have spare capacity or share a backing array",
+  "C05 quick", ["C05/L1/not-linearizable"], "missed at first: handler results are now sometimes sub-slices of one backing array"),
+ ("C06-c", "C06", "EnableKubernetesBindings skips bindings whose monitor already exists (continue), also skipping their Synchronization info",
+  "fault + retry: AddMonitor of a later binding fails during the first attempt (list error), the retried task succeeds",
+  "C06 quick", ["C06/U3/synchronization-missing", "C06/U6/synchronization-order"], "caught as built (list faults)"),
+ ("C07-c", "C07", "both combine twins copy the head's monitor ids into a zero-length slice (copies nothing)",
+  "configuration: >=2 kubernetes bindings sharing a group (combined Synchronizations)",
+  "C07 quick", ["C07/M1/result-differs"], "caught as built"),
+ ("C08-c", "C08", "OnAdd returns at once when isInInitialList is true",
+  "timing: a write between the monitor's preliminary list and the shared informer's own initial list",
+  "C08 quick", ["C08/T2/missing-event:Added", "C08/T3/snapshot-misses-object"],
+  "missed at first: the reference was fed from an observation inside handleWatchEvent, behind the changed function; observation moved to OnAdd/OnUpdate/OnDelete, the boundary to client-go (directives now bind parameters by position)"),
+ ("C09-c", "C09", "UpdateSnapshots shares one `snapshots` map between all contexts of a combined array",
+  "history: combined contexts of bindings with different includeSnapshotsFrom lists",
+  "C09 quick", ["C09/B5/snapshots-keys"], "missed at first: the contract validator checked presence of `snapshots`, not its exact key set"),
+ ("C11-c", "C11", "ScheduleID becomes `<binding name>{<crontab>}` instead of a uuid",
+  "configuration: two unnamed (or equally named) schedule bindings of one hook with the same crontab and different queues; or disable of one of two hooks with equal ids",
+  "C11 quick", ["C11/T2/binding-without-task:same-name-bindings"],
+  "missed at first: generated bindings always had distinct names; unnamed bindings generated, the per-firing oracle matches tasks to bindings as a multiset"),
+ ("C12-c", "C12", "MetricOperationsFromReader treats io.ErrUnexpectedEOF as end of stream",
+  "fault: exit 0 with a metrics file cut in the middle of a JSON value",
+  "C12 quick", ["C12/E5/failure-not-detected"], "caught as built"),
+ ("C13-c", "C13", "wrapErr formats with %v: the Conflict status is no longer recognised and CreateOrUpdate does not retry",
+  "fault: an Update answered 409 Conflict (a concurrent writer between Get and Update)",
+  "C13 quick", ["C13/P2/operation-not-applied", "C13/P3/failure-status"], "missed at first: new fault kind `update-conflict` (fewer conflicts than client-go's retry budget), part `conflicts=1` expects the fault-free outcome"),
+ ("C14-c", "C14", "the response UID is no longer set on error answers",
+  "fault: the handler returns an error (hook wrote no response, unknown path)",
+  "C14 quick", ["C14/A2/uid-not-echoed"], "caught as built"),
+ ("C15-c", "C15", "the rate-limit wait gets a 1 s timeout and returns Repeat; the conversion handler treats Repeat as a missing response",
+  "configuration + timing: a conversion hook with settings.executionMinInterval > 1 s serving more steps than its burst",
+  "C15 quick", ["C15/V2/path-not-found", "C15/V3/chain-does-not-reach-target"], "missed at first: part `settings=1` (rate-limited conversion hooks)"),
+ ("C16-c", "C16", "validation no longer requires buckets for observe; the apply loop still fails on it mid-batch",
+  "input: an ungrouped observe without buckets behind other operations",
+  "C16 quick", ["C16/V2/invalid-batch-partly-applied"], "missed at first: that malformed operation was not among the generated invalid ones"),
+ ("C17-c", "C17", "ScheduleManager.Stop also calls cron.Stop(), as does the watcher goroutine: the second call blocks for ever",
+  "interleaving: the watcher goroutine runs between cancel() and the direct cron.Stop()",
+  "C17 quick", ["C17/H4/shutdown-did-not-return"], "missed at first: runs whose Shutdown() never returned were cut off by the step cap and skipped; a Shutdown() that has not returned after 3 simulated minutes is now a violation"),
+ ("C18-c", "C18", "the limiter is consulted with the task's queue timestamp (ReserveN(queuedAt)) instead of now",
+  "timing: tasks that waited in a congested shared queue longer than the interval",
+  "C18 quick", ["C18/R1/rate-exceeded"], "first try ended with a build error of the instrumented tree (exit 2): the select rewrite R9 turned a terminating select into a non-terminating switch (`missing return`); R9 now adds an unreachable default. Then caught as built"),
+ ("C20-c", "C20", "the sort of the discovered paths is removed (filepath.Walk order is taken for lexical order)",
+  "input: a directory name that is a proper prefix of a sibling's name followed by a byte sorting before `/`",
+  "C20 quick", ["C20/D4/load-order", "C20/D1/hook-set"], "caught as built"),
 ]
 
 
@@ -155,7 +214,7 @@ def main():
             json.dump(meta, f, indent=1)
         rows.append(meta)
     with open(os.path.join(V, "seeded", "INDEX.md"), "w") as f:
-        f.write("# Seeded breaking changes\n\nEach change compiles and passes the 222 existing tests; each was confirmed in a scratch worktree\n(`lib/confirm_seeded.sh`) and tried against the checks with `lib/try_seeded.sh`. `-a` changes are the first\nround, `-b` the second (asked to differ in kind from `-a`).\n\n")
+        f.write("# Seeded breaking changes\n\nEach change compiles and passes the 222 existing tests; each was confirmed in a scratch worktree\n(`lib/confirm_seeded.sh`) and tried against the checks with `lib/try_seeded.sh`. `-a` changes are the first\nround, `-b` the second, `-c` the third (each asked to differ in kind from the earlier ones).\n\n")
         f.write("| id | change | needs | reported by | classes | note |\n|---|---|---|---|---|---|\n")
         for m in rows:
             f.write("| %s | %s | %s | %s | %s | %s |\n" % (m["id"], m["change"].replace("|", "\\|"), m["needs_to_manifest"].replace("|", "\\|"), m["detected_by"], ", ".join("`%s`" % c for c in m["violation_classes"]), m["history"].replace("|", "\\|")))
